@@ -63,14 +63,13 @@ func (g *gen) kindify(sc sinkCfg, s []int, num, den int) []int {
 	return s
 }
 
-// FINDING C19-gelf-maintenance-nil-client (notes/finding-C19-gelf-maintenance-nil-client.md): gelf's maintenance
-// closes data.gelf without looking whether there is a connection; a second maintenance call without an out()
-// in between (a batch without deliverable events, or an out() that could not connect / write) dereferences
-// nil in the batcher's worker goroutine: the process dies. Through the batcher with reconnect_interval 1 ms
-// every batch without a deliverable event that follows a sent one reaches it, so the other streams keep such
-// batches away from gelf (the first batch of a fresh instance is harmless: no worker data yet), and the
-// family idle-reconnect-via-gelf (child processes) is generated once the id is listed.
-const gelfIdleFinding = "C19-gelf-maintenance-nil-client"
+// REPAIRED DEFECT C19-gelf-maintenance-nil-client (notes/finding-C19-gelf-maintenance-nil-client.md, /repo fix
+// 3aa505c): gelf's maintenance closed data.gelf without looking whether there is a connection; a second maintenance
+// call without an out() in between (a batch without deliverable events, or an out() that could not connect / write)
+// dereferenced nil in the batcher's worker goroutine: the process died. Through the batcher with reconnect_interval
+// 1 ms every batch without a deliverable event that follows a sent one reaches that code: the streams below send
+// such batches to gelf like to every other sink, and the family idle-reconnect-via-gelf (child processes) pins the
+// minimal witness.
 
 var gelfAltCfgs = []hx.Sx{
 	// host_field, short_message_field, default_short_message_value, full_message_field, timestamp_field_format, level_field
@@ -167,11 +166,7 @@ func (g *gen) coverageStreams(allSinks []sinkCfg, names []string) {
 						nd++
 					}
 				}
-				which := sc.which
-				if baseSink(which) == 5 && nd == 0 {
-					which = sc.variant(0, true, false).which // gelf: an instance of its own (gelfIdleFinding)
-				}
-				c.Do("exhaustive-via-"+viaName(sc), which, hx.L(sc.cfg, hx.L(hx.L(evs...)), hx.L()), len(cur) >= 2 && nd >= 1)
+				c.Do("exhaustive-via-"+viaName(sc), sc.which, hx.L(sc.cfg, hx.L(hx.L(evs...)), hx.L()), len(cur) >= 2 && nd >= 1)
 			}
 			if len(cur) < 2 {
 				for _, o := range opts {
@@ -201,18 +196,10 @@ func (g *gen) coverageStreams(allSinks []sinkCfg, names []string) {
 			n := r.Intn(7)
 			allParents := r.Chance(1, 8)
 			var evs []hx.Sx
-			nd := 0
 			for k := 0; k < n; k++ {
 				kind := 0
 				if allParents || r.Chance(1, 5) {
 					kind = 2
-				}
-				if base == 5 && k == n-1 && nd == 0 {
-					kind = 0 // gelf: no batch without a deliverable event (gelfIdleFinding)
-					w.Count("via_gelf_idle_batches_avoided")
-				}
-				if kind != 2 {
-					nd++
 				}
 				evs = append(evs, g.mkEv(kind, g.randEvent(), sc.fields, sc.which, sc.raw))
 			}
@@ -317,7 +304,7 @@ func (g *gen) coverageStreams(allSinks []sinkCfg, names []string) {
 			var evs []hx.Sx
 			for k := r.Intn(5); k > 0; k-- {
 				kind := 0
-				if r.Chance(1, 6) && !(which == 15 && k == 1) { // through the batcher: the last event is deliverable (gelfIdleFinding)
+				if r.Chance(1, 6) {
 					kind = 2
 				}
 				evs = append(evs, g.mkEvCfg(kind, gelfEvent(), nil, which, false, cfg))
@@ -328,9 +315,9 @@ func (g *gen) coverageStreams(allSinks []sinkCfg, names []string) {
 	}
 	glap("gelf-cfg")
 
-	// ---- G2. the finding C19-gelf-maintenance-nil-client, once it is listed: a sent batch, then a batch of
-	//          parents only (no out()), with reconnect_interval elapsed both times; in child processes
-	if knownListed(gelfIdleFinding) {
+	// ---- G2. the repaired defect C19-gelf-maintenance-nil-client: a sent batch, then a batch of parents only
+	//          (no out()), with reconnect_interval elapsed both times; in child processes
+	{
 		gl := allSinks[11]
 		which := mkWhich(15, 0, true, false) + 16*vChild
 		simple := true
